@@ -31,6 +31,13 @@ fn listener_order() -> Vec<u8> {
 pub fn run_history(h: &gen::AHistory, init: &[(u64, bitcoin::Block)], dir: PathBuf, rec: &verif_harness::locks::Recorder) -> String {
     let mut w = World::new(h.cfg, dir.clone(), init, listener_order());
     w.watch_hangs = true;
+    // two histories in five run with SQLite's bound-variable limit lowered to 10 / 11 (the widest ordinary statement
+    // binds 7): same semantics, but IN (...) lists of more than ten rows take the multi-chunk paths
+    match h.steps.len() % 5 {
+        0 => w.set_sql_variable_limit(10),
+        1 => w.set_sql_variable_limit(11),
+        _ => {}
+    }
     rec.take_edges();
     let mut line = Line::new();
     line.tok("TW").tok(h.cfg.slots).tok(h.cfg.duration).tok(h.cfg.delta).tok(INIT_HEIGHT).tok(h.steps.len());
